@@ -40,6 +40,11 @@ def check(repo: Repo, R) -> None:
     R.check(len(looks) >= 1 and not magic and miss, "C11.3-variant-coverage", key_of(fct, "lookup"), fct.site,
             f"signals named by a connection are looked up in module.namespace ({len(looks) >= 1}; attribute lookups: {magic or 'none'}); an unknown name raises ({miss})",
             why="packages with signals named like Module attributes (`name`, `ports`) or with a leading underscore cannot be imported")
+    R.run(external_identity, repo, R)
+    # port order: the importer takes it from the order of the port entries inside `signals`; the exporter writes both lists
+    from . import c06 as _c06
+    R.run(_c06.check, repo, shared.Retag(R, lambda r: "C11.4-order-preserved" if r.startswith("C06.3") else None,
+                                        "the importer reads port order from the `signals` list: written in another order than `ports` (namespace order differs once a name was re-used), re-imported modules have their ports permuted, and positional netlists swap nets"))
     R.floor("C11.1-inverse-tables", 6)
     R.floor("C11.2-field-coverage", 10)
     R.floor("C11.3-variant-coverage", 4)
@@ -264,3 +269,44 @@ def order(repo: Repo, R):
     if len(body) >= 2:
         ext_before = ast.unparse(body[0].iter) == "self.pkg.ext_modules" and ast.unparse(body[1].iter) == "self.pkg.modules"
     R.check(ext_before, rule, key_of(fimp, "ext-first"), fimp.site, f"external modules are imported before the modules that instantiate them: {ext_before}", why="an instance of an external module is imported before its definition and fails")
+
+
+
+def external_identity(repo: Repo, R):
+    """External modules are what the exporter says they are: identified by (domain, name), called with the parameter
+    mapping as one value (foreign parameter names are arbitrary and never become Python keyword arguments of a call
+    that has named parameters of its own)."""
+    rule = "C11.5-external-modules-by-qualified-name"
+    n = 0
+    for qual in ("ProtoImporter.import_external_module", "ProtoImporter.import_instance"):
+        fi = repo.func(F_IMPORT, qual)
+        keys = []
+        for x in au.walk_no_nested(fi.node):
+            k = None
+            if isinstance(x, ast.Subscript) and ast.unparse(x.value) == "self.ext_modules":
+                k = x.slice
+            elif isinstance(x, ast.Call) and isinstance(x.func, ast.Attribute) and x.func.attr in ("get", "pop", "setdefault") and ast.unparse(x.func.value) == "self.ext_modules" and x.args:
+                k = x.args[0]
+            elif isinstance(x, ast.Compare) and len(x.ops) == 1 and isinstance(x.ops[0], (ast.In, ast.NotIn)) and ast.unparse(x.comparators[0]) == "self.ext_modules":
+                k = x.left
+            if k is not None:
+                keys.append((x, k))
+        if not keys:
+            raise AnalysisError(f"anchor-vanished: no use of self.ext_modules in {fi.site}")
+        for x, k in keys:
+            n += 1
+            t = shared.prov_text(fi.node, k)
+            ok = ".domain" in t and ".name" in t
+            R.check(ok, rule, key_of(fi, f"key::{ast.unparse(x)[:40]}"), fi.at(x), f"external modules are keyed by `{t}`: domain and name: {ok}",
+                    why="`pdk_a.nfet` and `pdk_b.nfet` of one package collide on import (or the instances of one resolve to the other)")
+    fi = repo.func(F_IMPORT, "ProtoImporter.import_instance")
+    tcalls = [c for c in au.calls_in(fi.node) if isinstance(c.func, ast.Name) and c.func.id == "target"]
+    if not tcalls:
+        raise AnalysisError(f"anchor-vanished: the imported target is not called with its parameters in {fi.site}")
+    for c in tcalls:
+        spread = [k for k in c.keywords if k.arg is None] + [a for a in c.args if isinstance(a, ast.Starred)]
+        ok = not spread and len(c.args) == 1 and not c.keywords
+        R.check(ok, rule, key_of(fi, "params-as-one-value"), fi.at(c), f"`{ast.unparse(c)}`: the parameters are handed over as one value (no `**` of foreign names): {ok}",
+                why="a foreign parameter named like a parameter of the call itself (`arg`) is captured by it: the instance comes back without it, or the import fails")
+    if n < 3:
+        raise AnalysisError(f"anchor-vanished: only {n} ext_modules key uses found")
